@@ -254,7 +254,7 @@ pub fn suite_http(dir: &str, seed: u64, thorough: bool, st: &mut Stats) {
     let mut out = SuiteOut::new(dir, "http");
     let n = if thorough { 3000 } else { 350 };
     for i in 0..n {
-        let flen = rng.range(50, 400) as usize;
+        let flen = rng.range(if i < 64 { 60 } else { 50 }, 400) as usize;
         let file: Vec<u8> = (0..flen).map(|_| rng.next() as u8).collect();
         let ranges = if i < 64 {
             // every subset of a 6-chunk archive (exhaustive small scope for C07)
@@ -275,7 +275,10 @@ pub fn suite_http(dir: &str, seed: u64, thorough: bool, st: &mut Stats) {
             }).collect()
         };
         // body fragmentation (must not matter): cuts at chunk boundaries (the critical places) and random offsets
-        let frag: Vec<u64> = if i % 3 == 0 { vec![] } else {
+        // (with a server that sends MORE than requested the left-over bytes, hence the result, legitimately depend on how
+        //  the body is cut: such scripts are run with bodies sent in one piece, as the model assumes)
+        let has_extra = script.iter().any(|x| matches!(x, SItem::Extra(_)));
+        let frag: Vec<u64> = if i % 3 == 0 || has_extra { vec![] } else {
             let mut f: Vec<u64> = ranges.iter().filter(|_| rng.chance(1, 2)).map(|(o, _)| *o).collect();
             for _ in 0..rng.below(3) { f.push(rng.below(flen as u64)); }
             f.sort();
